@@ -1,6 +1,375 @@
-"""C01 rules (placeholder: fail-closed until the rules are implemented)."""
-from ..loader import AnalysisError
+"""C01 - the up-to-date decision follows make semantics on files, timestamps and spec."""
+import ast
+
+from ..index import dotted, walk_no_nested, loc, ancestors, FUNC_TYPES
+from ..paths import RAISE, RETURN, Explorer, Semantics, State, fmt_trace
+from .persist import rule_hash_after_accept
+from .schedtable import SCHED, _calls, explore_should_run, explore_schedule
+
+CORE = "gwf.core"
+
+
+def rule_should_run_table(ctx, r):
+    fi, sem, outs = explore_should_run(ctx)
+    con = f"{fi.module.relpath}::{fi.qual}"
+    bad = []
+    n_false = 0
+    for o in outs:
+        if o.kind != RETURN:
+            bad.append((o, f"should_run can end with {o.kind} {o.payload}"))
+            continue
+        v = o.payload.value if isinstance(o.payload, ast.Constant) else None
+        if v not in (True, False):
+            bad.append((o, f"should_run returns `{ast.unparse(o.payload) if o.payload is not None else None}`, not a decided boolean"))
+            continue
+        spec_changed = None
+        for hv in sem.hash_vars:
+            d = o.state.vars.get(hv)
+            if d is not None:
+                spec_changed = d == frozenset(["HASH"]) if len(d) == 1 else None
+        f = o.state.facts
+        fresh_conditions = (spec_changed is False and not f.get("missing") and f.get("no_outputs") is False and f.get("newer") is False
+                            and f.get("exist_loop_done"))
+        if v is False:
+            n_false += 1
+            if not fresh_conditions:
+                why = []
+                if spec_changed is not False:
+                    why.append("the spec-changed test was not passed as 'unchanged'")
+                if f.get("missing"):
+                    why.append("an output is missing")
+                if not f.get("exist_loop_done"):
+                    why.append("the existence of every output was not checked")
+                if f.get("no_outputs") is not False:
+                    why.append("the target was not established to declare at least one output")
+                if f.get("newer") is not False:
+                    why.append("the newest-input/oldest-output comparison was not passed as 'not newer'")
+                bad.append((o, "should_run returns False (up to date, not submitted) on a path where " + "; ".join(why)))
+        else:
+            if fresh_conditions:
+                bad.append((o, "should_run returns True although the spec is unchanged, all outputs exist, there is at least one output and no input is newer"))
+    if n_false == 0:
+        bad.append((None, "should_run never returns False: every target is always stale"))
+    seen = set()
+    for o, msg in bad:
+        if msg in seen:
+            continue
+        seen.add(msg)
+        r.violation(f"{con}::{len(seen)}", msg, fi.where, fmt_trace(o.state, fi.module) if o else None)
+    if not bad:
+        r.ok(con, f"{len(outs)} paths; False is returned on exactly the path (spec unchanged, all outputs exist, >=1 output, no input newer)", fi.where)
+
+
+def _agg_details(idx, fi, sem, call):
+    """Check max/min(<gen over all flattened X> ...) : returns (ok, message)."""
+    if not call.args:
+        return False, "no iterable"
+    gen = call.args[0]
+    if not isinstance(gen, (ast.GeneratorExp, ast.ListComp, ast.SetComp)):
+        return False, f"aggregates `{ast.unparse(gen)[:50]}` instead of a comprehension over all declared files"
+    if len(gen.generators) != 1:
+        return False, "nested comprehension"
+    g = gen.generators[0]
+    if g.ifs:
+        return False, f"the comprehension filters files (`if {ast.unparse(g.ifs[0])}`)"
+    it = ast.unparse(g.iter)
+    if it not in (f"{sem.target_p}.flattened_inputs()", f"{sem.target_p}.flattened_outputs()"):
+        return False, f"iterates `{it[:60]}` rather than all flattened files"
+    v = g.target.id if isinstance(g.target, ast.Name) else None
+    elt = gen.elt
+    first = elt.elts[0] if isinstance(elt, ast.Tuple) and elt.elts else elt
+    if ast.unparse(first) != f"{sem.fs_p}.changed_at({v})":
+        return False, f"compares `{ast.unparse(first)[:50]}` instead of the modification time of each file"
+    return True, ""
+
+
+def rule_comparison(ctx, r):
+    idx = ctx.index
+    fi, sem, outs = explore_should_run(ctx)
+    con = f"{fi.module.relpath}::{fi.qual}::comparison"
+    cmp_nodes = []
+    for n in walk_no_nested(fi.node):
+        if isinstance(n, ast.Compare) and len(n.ops) == 1 and isinstance(n.ops[0], (ast.Gt, ast.Lt, ast.GtE, ast.LtE)):
+            names = {dotted(n.left), dotted(n.comparators[0])}
+            if names & sem.in_ts and names & sem.out_ts:
+                cmp_nodes.append(n)
+    if not cmp_nodes:
+        r.violation(con, "no comparison between the newest input time and the oldest output time found (operands must be max over all inputs / min over all outputs)",
+                    fi.where)
+        return
+    for n in cmp_nodes:
+        l, op = dotted(n.left), n.ops[0]
+        in_left = l in sem.in_ts
+        strict_newer = (in_left and isinstance(op, ast.Gt)) or (not in_left and isinstance(op, ast.Lt))
+        # the branch taken when the comparison holds must be the 'stale' one (checked by the path table); here: strictness and direction
+        r.check(strict_newer, con, "stale iff newest input > oldest output (strict)",
+                f"the staleness test is `{ast.unparse(n)}`: it must be the strict `newest input > oldest output` "
+                "(with >= an output written in the same clock tick as its input never becomes up to date; reversed operands invert the decision)",
+                loc(n, fi.module))
+    # the aggregates
+    for n in walk_no_nested(fi.node):
+        if isinstance(n, ast.Assign):
+            agg = sem._aggregate(n.value)
+            if not agg:
+                continue
+            fn, which, call = agg
+            want = "max" if which == "inputs" else "min"
+            c2 = f"{fi.module.relpath}::{fi.qual}::{which}"
+            ok, msg = _agg_details(idx, fi, sem, call)
+            if fn != want:
+                r.violation(c2, f"the {which} are aggregated with {fn}(): the decision needs the {'newest input' if which == 'inputs' else 'oldest output'} ({want})",
+                            loc(n, fi.module))
+            elif not ok:
+                r.violation(c2, f"{want}() over the {which}: {msg}", loc(n, fi.module))
+            else:
+                r.ok(c2, f"{want}(fs.changed_at(p) for p in all flattened {which})", loc(n, fi.module))
+            if which == "inputs":
+                d = [kw.value for kw in call.keywords if kw.arg == "default"]
+                dtxt = ast.unparse(d[0]) if d else None
+                r.check(d and "-inf" in dtxt.replace("'", "").replace('"', "").replace(" ", ""), c2 + "::default", "no inputs -> -inf (never newer)",
+                        f"max over no inputs defaults to {dtxt}: a target without inputs must never be stale because of timestamps", loc(n, fi.module))
+    if not sem.in_ts or not sem.out_ts:
+        r.violation(con, "newest-input / oldest-output aggregates not found", fi.where)
+
+
+def rule_guard_order(ctx, r):
+    fi, sem, outs = explore_should_run(ctx)
+    con = f"{fi.module.relpath}::{fi.qual}"
+    bad = [o for o in outs if o.state.facts.get("agg_outputs") and not o.state.facts["agg_outputs"][1]]
+    r.check(not bad, con + "::exists-before-mtime", "the existence loop over all outputs completes before their modification times are read",
+            "modification times of the outputs are read on a path that did not first check that every output exists (FileNotFoundError instead of 'shouldrun')",
+            fi.where, fmt_trace(bad[0].state, fi.module) if bad else None)
+    # existence loop ranges over all flattened outputs
+    loops = [n for n in walk_no_nested(fi.node) if isinstance(n, ast.For) and f"{sem.fs_p}.exists(" in ast.unparse(n)]
+    ok = any(ast.unparse(n.iter) == f"{sem.target_p}.flattened_outputs()" for n in loops)
+    r.check(ok, con + "::exists-loop", "for path in target.flattened_outputs(): if not fs.exists(path): return True",
+            "the existence check does not range over all flattened outputs", fi.where)
+    first = [o for o in outs if o.state.facts.get("hash_first") is False]
+    r.check(not first, con + "::spec-first", "the spec-change test comes before any file test",
+            "a file test precedes the spec-change test", fi.where)
+
+
+RAW = ("inputs", "outputs", "protect")
+DECISION_MODULES = ("gwf.scheduling", "gwf.plugins.clean", "gwf.plugins.touch", "gwf.plugins.run", "gwf.plugins.status", "gwf.plugins.cancel",
+                    "gwf.filtering", "gwf.backends.base", "gwf.backends.slurm", "gwf.backends.sge", "gwf.backends.lsf", "gwf.backends.local")
+
+
+def rule_shape_independence(ctx, r):
+    idx = ctx.index
+    n_sites = 0
+    for f in idx.functions.values():
+        in_graph = f.module.name == CORE and f.cls is not None and f.cls.name == "Graph"
+        if f.module.name not in DECISION_MODULES and not in_graph:
+            continue
+        for n in walk_no_nested(f.node):
+            if isinstance(n, ast.Attribute) and n.attr in RAW and isinstance(n.ctx, ast.Load):
+                base = dotted(n.value)
+                if base in ("self",) and f.cls is not None and f.cls.name in ("TargetList",):
+                    continue
+                n_sites += 1
+                r.violation(f"{f.module.relpath}::{f.qual}::{ast.unparse(n)}", f"decision/effect code reads the raw container `{ast.unparse(n)}`: the result then depends on "
+                            "how the files are grouped (an empty named group like {'A': []} is truthy but declares no file); use flattened_inputs/outputs/protected()",
+                            loc(n, f.module))
+    uses = sum(1 for f in idx.functions.values() for n in walk_no_nested(f.node)
+               if isinstance(n, ast.Call) and isinstance(n.func, ast.Attribute) and n.func.attr in ("flattened_inputs", "flattened_outputs", "protected"))
+    if n_sites == 0:
+        r.ok("decision-and-effect-code", f"no raw .inputs/.outputs/.protect read in scheduling, Graph, clean, touch, run, status, backends; {uses} uses of the flattened accessors", "src/gwf")
+    r.check(uses >= 8, "flattened-accessor-uses", f"{uses} uses", f"only {uses} uses of the flattened accessors found (expected >= 8)", "src/gwf")
+
+
+def rule_flatten(ctx, r):
+    idx = ctx.index
+    fl = idx.func(f"{CORE}:_flatten")
+    rec = next(iter(fl.nested.values()), None)
+    con = f"{fl.module.relpath}::{fl.qual}"
+    if rec is None:
+        r.violation(con, "recursive helper of _flatten not found", fl.where)
+        return
+    g = rec.positional_params()[0]
+    leaf = mapping = seq = False
+    msg = []
+    for n in walk_no_nested(rec.node):
+        if isinstance(n, ast.If):
+            t = ast.unparse(n.test)
+            if f"isinstance({g}, str)" in t:
+                if "__fspath__" in t or "PathLike" in t:
+                    leaf = any(isinstance(c.func, ast.Attribute) and c.func.attr == "append" and dotted(c.args[0]) == g for st in n.body for c in _calls(st))
+                else:
+                    msg.append("path objects (os.PathLike) are not treated as leaves")
+            if "Mapping" in t or "dict" in t:
+                for st in n.body:
+                    if isinstance(st, ast.For):
+                        it = ast.unparse(st.iter)
+                        valvar = None
+                        if it == f"{g}.items()" and isinstance(st.target, ast.Tuple) and len(st.target.elts) == 2:
+                            valvar = dotted(st.target.elts[1])
+                        elif it == f"{g}.values()":
+                            valvar = dotted(st.target)
+                        rc = [c for c in _calls(st) if isinstance(c.func, ast.Name) and c.func.id == rec.name]
+                        if valvar and rc and all(dotted(c.args[0]) == valvar for c in rc):
+                            mapping = True
+                        elif rc:
+                            msg.append(f"the Mapping case recurses on `{ast.unparse(rc[0].args[0])}` instead of the mapping's values")
+        if isinstance(n, ast.For) and dotted(n.iter) == g:
+            rc = [c for c in _calls(n) if isinstance(c.func, ast.Name) and c.func.id == rec.name]
+            if rc and all(dotted(c.args[0]) == dotted(n.target) for c in rc) and not any(isinstance(x, (ast.Break, ast.If)) for x in ast.walk(n) if x is not n):
+                seq = True
+    r.check(leaf, con + "::leaf", "str / PathLike leaves are appended", "; ".join(msg) or "the leaf case does not append the path", rec.where)
+    r.check(mapping, con + "::mapping", "mapping values are flattened recursively", "; ".join(msg) or "the Mapping case does not recurse on every value", rec.where)
+    r.check(seq, con + "::iterable", "every element of an iterable is flattened recursively", "the iterable case does not recurse on every element", rec.where)
+    tgt = idx.cls(f"{CORE}:Target")
+    for meth, attr in (("flattened_inputs", "inputs"), ("flattened_outputs", "outputs"), ("protected", "protect")):
+        m = idx.method(tgt, meth)
+        c2 = f"{tgt.module.relpath}::Target.{meth}"
+        if m is None:
+            r.violation(c2, f"Target.{meth} not found", tgt.where)
+            continue
+        rets = [n for n in walk_no_nested(m.node) if isinstance(n, ast.Return)]
+        txt = ast.unparse(rets[0].value) if rets else ""
+        core = f"_norm_paths(self.working_dir, _flatten(self.{attr}))"
+        r.check(len(rets) == 1 and txt in (core, f"set({core})", f"list({core})"), c2, f"= normalised flatten(self.{attr})",
+                f"Target.{meth} returns `{txt[:80]}`, not the normalised flattening of self.{attr} against the target's working directory", m.where)
+
+
+def rule_one_snapshot(ctx, r):
+    idx = ctx.index
+    cfs = idx.cls(f"{CORE}:CachedFilesystem")
+    lk = idx.method(cfs, "_lookup_file")
+    con = f"{cfs.module.relpath}::CachedFilesystem"
+    stats = []
+    for m in cfs.methods.values():
+        for c in _calls(m.node):
+            if isinstance(c.func, (ast.Name, ast.Attribute)) and (idx.canon(c.func, m.module) or "") in ("os.stat", "os.path.getmtime", "os.path.exists", "os.lstat"):
+                stats.append((m, c))
+    guarded = True
+    for m, c in stats:
+        ok = any(isinstance(a, ast.If) and isinstance(a.test, ast.Compare) and isinstance(a.test.ops[0], ast.NotIn) and "_cache" in ast.unparse(a.test.comparators[0])
+                 for a in ancestors(c))
+        guarded = guarded and ok
+    r.check(stats and guarded, con + "::stat-once", f"{len(stats)} stat site(s), all under `if path not in self._cache`",
+            "a file can be stat'ed more than once per invocation: existence and modification time of one file may come from different moments", cfs.where)
+    mt = any(isinstance(n, ast.Attribute) and n.attr == "st_mtime" for m in cfs.methods.values() for n in ast.walk(m.node))
+    r.check(mt, con + "::mtime", "modification time = st_mtime", "the recorded time is not the file's modification time (st_mtime)", cfs.where)
+    for key in ("gwf.plugins.status:status", "gwf.plugins.run:run"):
+        f = idx.func(key)
+        ctor = [n for n in walk_no_nested(f.node) if isinstance(n, ast.Assign) and isinstance(n.value, ast.Call)
+                and idx.canon(n.value.func, f.module) == f"{CORE}.CachedFilesystem"]
+        c2 = f"{f.module.relpath}::{f.qual}::fs"
+        if len(ctor) != 1:
+            r.violation(c2, f"{len(ctor)} CachedFilesystem objects are created (exactly one snapshot per command is required)", f.where)
+            continue
+        var = ctor[0].targets[0].id
+        to_graph = to_sched = False
+        for c in _calls(f.node):
+            cn = idx.canon(c.func, f.module) if isinstance(c.func, (ast.Name, ast.Attribute)) else None
+            args = [dotted(a) for a in c.args] + [dotted(k.value) for k in c.keywords]
+            if cn and cn.endswith("Graph.from_targets") and var in args:
+                to_graph = True
+            if cn in ("gwf.scheduling.get_status_map", "gwf.scheduling.submit_workflow") and var in args:
+                to_sched = True
+        r.check(to_graph and to_sched, c2, "one filesystem snapshot shared by graph construction and the scheduler",
+                "graph construction and the staleness decision do not share one filesystem snapshot", f.where)
+
+
+class HasChangedSem(Semantics):
+    def __init__(self, ctx, finfo):
+        super().__init__(ctx.index, finfo)
+        self.saved = set()
+        self.current = set()
+        for n in walk_no_nested(finfo.node):
+            if isinstance(n, ast.Assign) and isinstance(n.targets[0], ast.Name):
+                t = ast.unparse(n.value)
+                if ".get(" in t and "hashes" in t:
+                    self.saved.add(n.targets[0].id)
+                if "hash_spec(" in t:
+                    self.current.add(n.targets[0].id)
+
+    def domain(self, text):
+        return ("NONE", "HASH") if text in self.saved else None
+
+    def truthy(self, v):
+        return v != "NONE"
+
+    def const(self, expr, state):
+        t = ast.unparse(expr)
+        if t in state.vars:
+            return state.vars[t]
+        if isinstance(expr, ast.Constant) and expr.value is None:
+            return frozenset(["NONE"])
+        return None
+
+    def assign(self, t, v, s):
+        return None
+
+    def may_raise(self, node, state):
+        return []
+
+    def test_hook(self, expr, state):
+        if isinstance(expr, ast.Compare) and len(expr.ops) == 1 and isinstance(expr.ops[0], (ast.Eq, ast.NotEq)):
+            names = {dotted(expr.left), dotted(expr.comparators[0])}
+            if names & self.saved and names & self.current:
+                eq = isinstance(expr.ops[0], ast.Eq)
+                return [(True, state.with_fact("equal", eq)), (False, state.with_fact("equal", not eq))]
+        return None
+
+
+def rule_spec_clause(ctx, r):
+    idx = ctx.index
+    fsh = idx.cls(f"{CORE}:FileSpecHashes")
+    hc = idx.method(fsh, "has_changed")
+    con = f"{hc.module.relpath}::{hc.qual}"
+    sem = HasChangedSem(ctx, hc)
+    outs = Explorer(sem).run(State())
+    bad = None
+    n_none = 0
+    for o in outs:
+        if o.kind != RETURN:
+            continue
+        is_none = o.payload is None or (isinstance(o.payload, ast.Constant) and o.payload.value is None)
+        saved_dom = None
+        for sv in sem.saved:
+            saved_dom = o.state.vars.get(sv, saved_dom)
+        unchanged = saved_dom == frozenset(["HASH"]) and o.state.facts.get("equal") is True
+        if is_none:
+            n_none += 1
+            if not unchanged:
+                bad = (o, "has_changed reports 'unchanged' (None) although no record exists or the recorded hash differs")
+        elif unchanged:
+            bad = (o, "has_changed reports a change although the recorded hash equals the current one")
+    if n_none == 0:
+        bad = (None, "has_changed never reports 'unchanged': with hashing on every target is stale forever")
+    r.check(bad is None, con, f"{len(outs)} paths: None iff a record exists and equals hash_spec(target.spec)", bad[1] if bad else "", hc.where,
+            fmt_trace(bad[0].state, hc.module) if bad and bad[0] else None)
+    key_ok = any(isinstance(n, ast.Call) and ast.unparse(n).endswith(".get(target.name)") or ast.unparse(n) == "self.hashes.get(target.name)" for n in ast.walk(hc.node)
+                 if isinstance(n, ast.Call))
+    cur_ok = any(ast.unparse(n) == "hash_spec(target.spec)" for n in ast.walk(hc.node) if isinstance(n, ast.Call))
+    r.check(key_ok and cur_ok, con + "::keys", "record looked up by target.name, compared with hash_spec(target.spec)",
+            "has_changed does not compare the record stored under target.name with hash_spec(target.spec)", hc.where)
+    nsh = idx.cls(f"{CORE}:NoopSpecHashes")
+    nh = idx.method(nsh, "has_changed")
+    rets = [n for n in walk_no_nested(nh.node) if isinstance(n, ast.Return)]
+    r.check(rets and all(n.value is None or (isinstance(n.value, ast.Constant) and n.value.value is None) for n in rets),
+            f"{nh.module.relpath}::{nh.qual}", "with hashing off a spec edit never makes a target stale (returns None)",
+            "NoopSpecHashes.has_changed can report a change: with hashing disabled a spec edit would cause re-runs", nh.where)
 
 
 def run(ctx):
-    raise AnalysisError("rules for C01 not implemented yet")
+    r1 = ctx.rule("R1", "path table of should_run: up to date exactly when spec unchanged, every output exists, at least one output, no input strictly newer")
+    rule_should_run_table(ctx, r1)
+    r2 = ctx.rule("R2", "the staleness test is max(mtime of ALL inputs) > min(mtime of ALL outputs), strict", min_instances=3)
+    rule_comparison(ctx, r2)
+    r3 = ctx.rule("R3", "existence of all outputs is established before their times are read; the spec test comes first", min_instances=3)
+    rule_guard_order(ctx, r3)
+    r4 = ctx.rule("R4", "decision and effect code read target files only through the flattened accessors (shape independence)")
+    rule_shape_independence(ctx, r4)
+    r5 = ctx.rule("R5", "flattening is total over str/PathLike, mappings (values) and iterables; accessors map to their own attribute", min_instances=6)
+    rule_flatten(ctx, r5)
+    r6 = ctx.rule("R6", "one stat per path and one filesystem snapshot per command", min_instances=4)
+    rule_one_snapshot(ctx, r6)
+    r7 = ctx.rule("R7", "spec clause: unchanged iff a record exists and equals the hash of the current spec; off => never stale", min_instances=3)
+    rule_spec_clause(ctx, r7)
+    rule_hash_after_accept(ctx, r7)
+    # status mapping: completed <=> not should_run for UNKNOWN/COMPLETED backend states with no pending deps comes from the C02 table
+    r8 = ctx.rule("R8", "no job / finished job and no pending dependency: shown completed and not submitted iff should_run is False")
+    from .schedtable import rule_decision_table
+    rule_decision_table(ctx, r8)
